@@ -167,7 +167,18 @@ func VerifC16UserDict() {
 	users := make([]verifUser, k)
 	for i := range users {
 		u := verifUser{name: fmt.Sprintf("User%d", i), display: fmt.Sprintf("u%d", i)}
-		switch vf.NondetIntRange("naming", 0, 3) {
+		// three or more user chords: a reduced choice per chord (own name or a re-used one, no
+		// symbol take-over, attributes none / built-in / dangling) — the full product would be
+		// ~10^7 paths; every kind of inheritance (none / user / built-in / deep built-in /
+		// dangling, cycles among user chords) stays
+		small := k >= 3
+		naming := 0
+		if small {
+			naming = []int{0, 2}[vf.NondetIntRange("naming", 0, 1)]
+		} else {
+			naming = vf.NondetIntRange("naming", 0, 3)
+		}
+		switch naming {
 		case 1:
 			u.name = ""
 		case 2:
@@ -175,7 +186,7 @@ func VerifC16UserDict() {
 		case 3:
 			u.name, u.display = "DominantSeventh", "7" // re-defining a built-in under its own name and symbol
 		}
-		if u.name != "DominantSeventh" && vf.NondetIntRange("symbol", 0, 1) == 1 {
+		if !small && u.name != "DominantSeventh" && vf.NondetIntRange("symbol", 0, 1) == 1 {
 			u.display = "sus4" // a new chord taking over a symbol that is already in use
 		}
 		e := vf.NondetIntRange("extends", 0, k+3)
@@ -190,7 +201,13 @@ func VerifC16UserDict() {
 		default:
 			u.extends = "NoSuchChord"
 		}
-		switch vf.NondetIntRange("attrs", 0, 3) {
+		attrs := 0
+		if small {
+			attrs = []int{0, 1, 3}[vf.NondetIntRange("attrs", 0, 2)]
+		} else {
+			attrs = vf.NondetIntRange("attrs", 0, 3)
+		}
+		switch attrs {
 		case 1:
 			u.attrs = []string{"Major7"}
 		case 2:
